@@ -283,6 +283,66 @@ class Multi:
         return p
 
 
+class Prod:
+    """d1 ~ Gamma(a1,b1); d2 ~ Gamma(a2,b2); x | d1,d2 ~ N(x0, I/c) with c = d1*d2 ("prod") or d1+d2 ("sum");
+    optionally data y | x ~ N(A x, s2 I).  The two hyper-parameters are mutually dependent given x."""
+    family = "prod"
+
+    def __init__(self, n, x0, a, b, comb, A=None, s2=1.0, y_obs=None):
+        self.n, self.x0, self.a, self.b, self.comb = n, np.asarray(x0, float), list(a), list(b), comb
+        self.A = None if A is None else np.asarray(A, float)
+        self.s2 = float(s2)
+        self.y_obs = None if y_obs is None else np.asarray(y_obs, float)
+        self.names = ["d1", "d2", "x"]
+        self.data_names = ["y"] if self.A is not None else []
+        self.dims = {"d1": 1, "d2": 1, "x": n, "y": 0 if self.A is None else self.A.shape[0]}
+        self.positive = {"d1", "d2"}
+
+    def _c(self, d1, d2):
+        return d1 * d2 if self.comb == "prod" else d1 + d2
+
+    def logjoint(self, v):
+        d1 = float(np.asarray(v["d1"]).reshape(-1)[0]); d2 = float(np.asarray(v["d2"]).reshape(-1)[0])
+        out = log_gamma_pdf(d1, self.a[0], self.b[0]) + log_gamma_pdf(d2, self.a[1], self.b[1])
+        if not np.isfinite(out):
+            return out
+        x = np.asarray(v["x"], float).reshape(-1)
+        out += log_gauss_diag(x, self.x0, 1.0 / self._c(d1, d2))
+        if self.A is not None:
+            y = np.asarray(v["y"], float).reshape(-1) if "y" in v else self.y_obs
+            out += log_gauss_diag(y, self.A @ x, self.s2)
+        return out
+
+    def draw(self, rs):
+        d1 = rs.gamma(self.a[0], 1.0 / self.b[0]); d2 = rs.gamma(self.a[1], 1.0 / self.b[1])
+        x = self.x0 + rs.standard_normal(self.n) / math.sqrt(self._c(d1, d2))
+        v = {"d1": np.array([d1]), "d2": np.array([d2]), "x": x}
+        if self.A is not None:
+            v["y"] = self.A @ x + math.sqrt(self.s2) * rs.standard_normal(self.A.shape[0])
+        return v
+
+    def pivots(self, states):
+        d1 = np.array([float(np.asarray(s["d1"]).reshape(-1)[0]) for s in states])
+        d2 = np.array([float(np.asarray(s["d2"]).reshape(-1)[0]) for s in states])
+        X = np.array([np.asarray(s["x"], float).reshape(-1) for s in states])
+        z = np.sqrt(self._c(d1, d2))[:, None] * (X - self.x0)
+        out = {"d1": (d1, ("gamma", self.a[0], self.b[0])), "d2": (d2, ("gamma", self.a[1], self.b[1])),
+               "c*|x-x0|^2": (np.sum(z ** 2, axis=1), ("chi2", self.n)), "sqrt(c)(x-x0)": (z.ravel(), ("norm",)),
+               "sqrt(c)(x-x0)[0]": (z[:, 0], ("norm",))}
+        if self.A is not None:
+            Y = np.array([np.asarray(s["y"], float).reshape(-1) if "y" in s else self.y_obs for s in states])
+            e = (Y - X @ self.A.T) / math.sqrt(self.s2)
+            out["(y-Ax)/s"] = (e.ravel(), ("norm",)); out["(y-Ax)/s[0]"] = (e[:, 0], ("norm",))
+        return out
+
+    @property
+    def pairs(self):
+        p = [("d1", "d2"), ("d1", "c*|x-x0|^2"), ("d2", "c*|x-x0|^2"), ("d1", "sqrt(c)(x-x0)[0]")]
+        if self.A is not None:
+            p.append(("sqrt(c)(x-x0)[0]", "(y-Ax)/s[0]"))
+        return p
+
+
 # ----------------------------------------------------------------------------- conditionals from logjoint only
 
 def gauss_conditional(model, cur, block):
@@ -426,6 +486,8 @@ def selftest():
               Chain(["a", "b", "c"], [2, 3, 1], [1.0, -1.0], [rs.standard_normal((3, 2)), rs.standard_normal((1, 2))],
                     [np.zeros(3), np.ones(1)], [1.0, 0.5, 0.3], parents=[None, 0, 0]),
               Scalar3(1.0, 1.0, 1.0, 100.0),
+              Prod(n, np.zeros(n), [3.0, 4.0], [2.0, 1.0], "prod"),
+              Prod(n, rs.standard_normal(n), [3.0, 4.0], [2.0, 1.0], "sum", A=A, s2=0.5),
               Multi(n, [A, rs.standard_normal((m, n))], np.zeros(n), [3.0, 4.0], [1.0, 2.0], True),
               Multi(n, [A, rs.standard_normal((2, n))], rs.standard_normal(n), [3.0, 4.0], [1.0, 2.0], False, d_fixed=0.7)]
     for M in models:
@@ -437,6 +499,12 @@ def selftest():
         # corrupt: replace the first block by an independent redraw (breaks the dependence)
         other = [M.draw(rs) for _ in range(3000)]
         k0 = M.names[0] if M.family != "scalar3" else "s"
+        if M.family == "prod" and M.comb == "prod":
+            v0 = states[0]
+            sh, rt, df = gamma_conditional(M, v0, "d2")
+            dev = v0["x"] - M.x0
+            if abs(sh - (M.a[1] + M.n / 2)) > 1e-8 or abs(rt - (M.b[1] + 0.5 * v0["d1"][0] * dev @ dev)) > 1e-8 * (1 + rt) or df > 1e-9:
+                bad.append("gamma_conditional d2 (prod)")
         if M.family == "multi":
             # textbook conditional of x given two different data sets
             v0 = states[0]
